@@ -7,3 +7,4 @@ import Theorems.C10
 #print axioms C10.minsum_decodes_clean
 #print axioms C10.minsum_rescaling
 #print axioms C10.minsum_scale_invariant
+#print axioms C10.marginal_minus_own
